@@ -902,4 +902,20 @@ theorem no_app_between_kexinit_and_newkeys_with_errors (ls : List ELabel) (e : E
 example : (erun einit [.ok .kexinit, .ok .kexmsg, .ok (.submit 0), .finishErr]).map (fun e => (e.s.wire, e.err))
     = some ([.kexinit, .kexmsg], true) := by decide
 
+/-! ## non-vacuity: receive side, wake-up, error release -/
+
+-- the receiver of the run above: app packets before, around and after a key exchange arrive in order
+example : (recvRun rinit [.app 0 0, .kexinit, .kexmsg, .newkeys, .kexmsg, .app 0 1, .app 1 0]).delivered = [(0, 0), (0, 1), (1, 0)] ∧
+    (recvRun rinit [.app 0 0, .kexinit, .app 0 1]).phase = .failed := by decide
+-- a full queue: the 65th packet parks its writer; after the key exchange it is signalled, wakes and pushes
+example :
+    ((runFrom init ([.kexinit] ++ List.replicate 64 (.submit 0) ++ [.submit 1, .newkeys, .finish, .wake 1])).map
+      (fun s => (s.parked, s.pending.length, s.wire.length, s.wire.getLast?))) = some ([], 0, 67, some (.app 1 0)) := by
+  decide
+-- error while a writer is parked: it is released without pushing
+example :
+    ((erun einit ([.ok .kexinit] ++ List.replicate 64 (.ok (.submit 0)) ++ [.ok (.submit 1), .fail, .ok (.wake 1)])).map
+      (fun e => (e.err, e.s.parked, e.s.wire))) = some (true, [], [.kexinit]) := by
+  decide
+
 end XC.C31
